@@ -20,6 +20,7 @@ func genLifePlan(seed uint64, thorough bool) *Plan {
 	p.Knobs.PCT = []int{0, 0, 0, 2, 3}[g.r.IntN(5)]
 	p.Knobs.UnlockYield = g.chance(2)
 	p.Knobs.Frag = g.chance(3)
+	p.Knobs.RandAdv = []int{0, 0, 12}[g.r.IntN(3)]
 	second := g.chance(2)
 	cycles := 1 + g.r.IntN(3)
 	var clients []Client
@@ -79,7 +80,7 @@ func genLifePlan(seed uint64, thorough bool) *Plan {
 			g.client = cy*10 + v
 			key := "g" + strconv.Itoa(cy) + "v" + strconv.Itoa(v)
 			items := []Item{{Op: "barrier", N: bar}, cmdItem("SET", key, "alive"), cmdItem("RPUSH", "shared", key)}
-			state := g.pick("idle", "mid-frame", "multi", "blocked", "not-reading", "busy", "reblocked")
+			state := g.pick("idle", "mid-frame", "multi", "blocked", "not-reading", "busy", "reblocked", "reset-inflight")
 			var helper *Client
 			switch state {
 			case "idle":
@@ -96,7 +97,9 @@ func genLifePlan(seed uint64, thorough bool) *Plan {
 			case "multi":
 				items = append(items, cmdItem("MULTI"), cmdItem("SET", key, "queued"), cmdItem("INCR", "cnt"))
 			case "blocked":
-				items = append(items, Item{Args: bs(g.pick("BLPOP", "BRPOP"), "nothing"+strconv.Itoa(v), "0"), Tag: "blocked"})
+				// (with a timeout, sometimes: the termination may coincide with the
+				// moment the block ends by itself)
+				items = append(items, Item{Args: bs(g.pick("BLPOP", "BRPOP"), "nothing"+strconv.Itoa(v), g.pick("0", "0", "0.02", "0.3", "2")), Tag: "blocked"})
 			case "not-reading":
 				items = append(items, Item{Op: "stop-reading", N: 64}, cmdItem("SET", key+":big", strings.Repeat("x", 3000)))
 				for i := 0; i < 4; i++ {
@@ -106,6 +109,14 @@ func genLifePlan(seed uint64, thorough bool) *Plan {
 				for i := 0; i < 6; i++ {
 					items = append(items, cmdItem("INCR", key+":n"))
 				}
+			case "reset-inflight":
+				// the client is gone (connection reset) before the replies to its last
+				// commands are written: the writes fail, and the connection must still
+				// count as one to shut down when the termination comes
+				for i := 0; i < 1+g.r.IntN(3); i++ {
+					items = append(items, cmdItem("INCR", key+":n"))
+				}
+				items = append(items, Item{Op: "reset", Now: true})
 			}
 			// wait for the termination to have returned, then try to use the old connection
 			items = append(items, Item{Op: "barrier", N: bar + 1, Now: true})
@@ -115,7 +126,7 @@ func genLifePlan(seed uint64, thorough bool) *Plan {
 			}
 			items = append(items, Item{Args: bs(after...), Tag: "after-close"}, Item{Args: bs("GET", key), Tag: "after-close"})
 			depth := 1
-			if state == "blocked" || state == "not-reading" || state == "busy" {
+			if state == "blocked" || state == "not-reading" || state == "busy" || state == "reset-inflight" {
 				depth = 8
 			}
 			clients = append(clients, Client{Name: "victim-" + state, Items: items, Depth: depth, Lazy: true})
